@@ -27,7 +27,10 @@ package redisemu
 //@ requires len(data.buckets) == 1<<uint(kk)
 //@ requires !scanStarted
 //@ modifies heap ghost.lookupAbsent ghost.scanStarted ghost.scanFirst ghost.scanNext ghost.scanCursor
+// C17: the filter must not touch the table being walked (a removal or
+// insertion may rehash it mid-iteration)
 //@ callback isMatch
+//@ prop C17
 //@ pure
 //@ endcallback
 //@ ghostafter "index := bits.Reverse32" : if !scanStarted : scanFirst = index
